@@ -650,12 +650,42 @@ def opWeights (args : List String) : Option String := do
   | _ => none
 end WeightOps
 
+/-! ### C19 registration (Float) -/
+section RegOps
+open Arim.Reg
+
+/-- `register <elemX> <dead bits> <tx:rx:dist,...>` → `z0|sin|x:z,...` -/
+def opRegister (args : List String) : Option String := do
+  match args with
+  | [xs, dead, obs] =>
+    let xs ← floatList? xs
+    let deadL := dead.toList.map (· == '1')
+    let obs ← (splitNE obs ",").mapM (fun t => match t.splitOn ":" with
+      | [a, b, d] => do let a ← nat? a; let b ← nat? b; let d ← float? d; pure ({ tx := a, rx := b, dist := d } : Obs Float)
+      | _ => none)
+    match register 0.0 natToF (fun p => Float.cos (Float.asin p)) (fun e => xs.toArray.getD e 0) xs.length (fun e => deadL.toArray.getD e false) obs with
+    | none => pure "E"
+    | some (z0, s1, pts) => pure (showFloat z0 ++ "|" ++ showFloat s1 ++ "|" ++ join (pts.map (fun p => showFloat p.1 ++ ":" ++ showFloat p.2)))
+  | _ => none
+
+/-- `detect <samples> <trace> <tmin|-> <tmax|->` → time or `N` -/
+def opDetect (args : List String) : Option String := do
+  match args with
+  | [smp, tr, tmin, tmax] =>
+    let smp ← floatList? smp; let tr ← floatList? tr
+    let tmin ← optF? tmin; let tmax ← optF? tmax
+    pure (match detectSurface Float.abs smp tr tmin tmax with | none => "N" | some t => showFloat t)
+  | _ => none
+end RegOps
+
 def route (op : String) (args : List String) : String :=
   let r : Option String :=
     match op with
     | "fermat" => opFermat args
     | "minplus" => opMinPlus args
     | "chunks" => opChunks args
+    | "register" => opRegister args
+    | "detect" => opDetect args
     | "weights" => opWeights args
     | "iface" => opIface args
     | "raygeom" => opRayGeom args
